@@ -391,6 +391,20 @@ func (x *Exec) addMod(env *SpecEnv, m *ModSet, e Expr) {
 			m.whole["V"] = true
 			return
 		}
+		// a local variable that lives in a heap box (its address is taken or a closure captures it): that box
+		if env.fr != nil {
+			if a := x.findLocal(env.fr, env.li, e.Name); a != nil && a.Heap {
+				if ref, ok := env.fr.vals[a].(VScalar); ok {
+					elem := a.Type().(*types.Pointer).Elem()
+					k := "B|" + typeName(elem)
+					if _, isStruct := elem.Underlying().(*types.Struct); isStruct {
+						k = "F|" + typeName(elem)
+					}
+					m.refs[k] = append(m.refs[k], ref.T)
+					return
+				}
+			}
+		}
 		// a bare type name: all fields of all objects of this type
 		if env.pkg != nil {
 			if tn, ok := env.pkg.Scope().Lookup(e.Name).(*types.TypeName); ok {
